@@ -496,7 +496,20 @@ def _check_property(prop, tier, seed, mine, scratch, findings, t0):
         if ce:
             rec.update(ce)
         has_input = bool(ce and ce.get('inputs') is not None)
-        own = prop in (r.built.fns.get(e['fn'], {}).get('props') or [])
+        props_f = r.built.fns.get(e['fn'], {}).get('props') or []
+        own = prop in props_f
+        shared = own and len(props_f) > 1
+        if shared and not has_input:
+            # The function's contract carries several properties at once (value and validation of a setter: C09 and C15; offset
+            # and crash-freedom of a lookup: C18 and C19). The battery of this property looks only at what this property is about
+            # (cesearch `project`): without a concrete difference there, the failing contract belongs to the sibling property.
+            rec['verdict'] = 'undecided: contract shared by %s fails, no failing input for %s found' % (','.join(props_f), prop)
+            with open(rp, 'w') as f:
+                json.dump(rec, f, indent=1)
+            nviol -= 1
+            undecided.append('%s/%s: %s fails its contract (%s), which also carries %s; no failing input for %s found (see %s)' % (
+                r.unit['name'], r.variant, e['fn'], e['message'], ','.join(x for x in props_f if x != prop), prop, rp))
+            continue
         if not own and not has_input:
             # The failing function is a *dependency* of this property (reached through the call graph, its contract does not state
             # the property itself) and this property's own battery shows no behavioural difference: the property is no longer
